@@ -22,6 +22,7 @@ func init() {
 			"R07.5 validation.responseFormat always negotiates and records a 406 whenever nothing was negotiated for an operation that declares produces, and the handler stage is reached only with an empty error accumulator; R07.6 a type/* range is compared with the offer by a prefix that keeps the slash, and an exact range by equality with the normalised offer; ParseAccept is only ever given canonical header names. " +
 			"R07.2 also: a selection happens only when the range's q is not below the best q so far, the specificity rank a selection records is the rank its tie-break compares against, and the recorded ranks are ordered */* > type/* > exact; R07.4 also: the parameter-skipping loop of ParseAccept stops at the next range separator. " +
 			"R07.4 also: the loop over the header's lines is never left early; R07.5 also: every context a memoising accessor writes into derives from the Context() of the request it was given. " +
+			"R07.4 also: the white-space class of the octet table is exactly SP, HT, CR, LF. " +
 			"NOT decided: the lexicographic maximum over (q, specificity, position) — a flipped > / >= is not claimed to be caught.",
 		Run: runC07,
 	})
